@@ -11,14 +11,14 @@ spy(SC, "_build_job_statepoint_index")
 spy(DF, "diff_jobs")
 CODE = ["signac.project.Project.detect_schema", "signac.schema._build_job_statepoint_index", "signac._search_indexer._SearchIndexer.build_index/_TypedSetDefaultDict",
         "signac.diff.diff_jobs", "signac._utility._nested_dicts_to_dotted_keys/_dotted_dict_to_nested_dicts"]
-BOUNDS = {"corpus": "2 jobs (quick) / 3 jobs (thorough), keys a (12 value shapes incl. missing, None, bool, int, equal float, str, list, empty mapping, nested mapping c) and b (missing/0/1)",
+BOUNDS = {"corpus": "2 jobs (quick) / 3 jobs (thorough), keys a (12 value shapes incl. missing, None, bool, int, equal float, str, list, empty mapping, nested mapping c; with 2 jobs also a list of mappings written in two key orders) and b (missing/0/1)",
           "selection": "every subset of the jobs via the subset argument", "exclude_const": "both"}
 OUTSIDE = ["corpora > 3 jobs", "lists whose elements differ only by bool/int type ([True] vs [1] hash to one tuple slot)", "diff_jobs on state points containing an empty mapping (unhashable pair -> TypeError)"]
 STUBS = ["Project._build_index yields the symbolic corpus; job objects for diff_jobs are minimal stand-ins exposing id and statepoint()"]
 ASSUMPTIONS = ["a key is 'constant' iff every selected job has it with the same JSON value (type-exact)"]
 
 MISSING = ("<missing>",)
-TA = [MISSING, None, False, True, 0, 1, 1.0, "a", [0], {"c": 0}, {"c": 1}, {}]
+TA = [MISSING, None, False, True, 0, 1, 1.0, "a", [0], {"c": 0}, {"c": 1}, {}, [{"x": 1, "y": 2}], [{"y": 2, "x": 1}]]   # the last two: ONE JSON value written with two key orders
 TD = TA[:11] + [{"c": {"d": 0, "e": 0}}, {"c": {"d": 1, "e": 1}}, {"c": {"d": 0, "e": 1, "f": {"g": 0, "h": 0}}}, {"c": {"d": 0, "e": 1, "f": {"g": 1, "h": 1}}}]  # diff_jobs domain: no empty mapping, deeper nesting
 TB = [MISSING, 0, 1]
 
@@ -61,7 +61,7 @@ def empty_vs_nonempty_mapping(ec, sel, *ia):
 
 
 def h_schema2(a0: int, b0: int, a1: int, b1: int, sel: int, ec: bool):
-    assert 0 <= a0 < 12 and 0 <= a1 < 12 and 0 <= b0 < 3 and 0 <= b1 < 3 and 0 <= sel < 4 and part_ok(a0)
+    assert 0 <= a0 < 14 and 0 <= a1 < 14 and 0 <= b0 < 3 and 0 <= b1 < 3 and 0 <= sel < 4 and part_ok(a0)
     assert kf_filter("C18.empty_vs_nonempty_mapping", empty_vs_nonempty_mapping(ec, sel, a0, a1))
     fresh_path()
     sps = [mksp(a0, b0), mksp(a1, b1)]
